@@ -90,6 +90,7 @@ def run_case(case, drv):
     res = Result(key=core.case_key(case))
     o, outcome = FU.build_form(case)
     FU.check_fresh_twin(o, case["form"], res)
+    FU.check_query_mutate_query(case, res)
     FU.check_construction(o, res)
     if outcome not in (None, "ok"):
         res.nontrivial = False
